@@ -165,7 +165,11 @@ class SubQueryLineageHolder(ColumnLineageMixin):
             for column in self.write_columns:
                 if column.raw_name == "*":
                     tgt_wildcard = column
-                    for src_wildcard in self.get_source_columns(tgt_wildcard):
+                    # several tables may offer a column of the same name and the first one wins:
+                    # visit them by name, not in the hash order of the set they were collected in
+                    for src_wildcard in sorted(
+                        self.get_source_columns(tgt_wildcard), key=lambda c: str(c)
+                    ):
                         if source_table := src_wildcard.parent:
                             src_table_columns = []
                             if isinstance(source_table, SubQuery):
